@@ -8,7 +8,7 @@ Open Scope N_scope.
 Fixpoint fails (j0 k : nat) : list event :=
   match k with
   | O => []
-  | S k' => Begin j0 :: Sent j0 false :: fails (S j0) k'
+  | S k' => Begin j0 0%Z :: Sent j0 false :: fails (S j0) k'
   end.
 
 Lemma tdel_tset_free t i v : tget t i = None -> tdel (tset t i v) i = t.
@@ -31,7 +31,7 @@ Proof.
   - destruct (alloc (tbl s) (next s)) as [i|] eqn:Ea.
     2:{ exfalso. eapply first_free_total; eauto; [apply HI|apply HI]. }
     destruct (first_free_spec _ _ _ _ (inv_next _ HI) Ea) as [Hifree Hilt].
-    destruct (step true s (Begin j0)) as [s1| | |] eqn:E1;
+    destruct (step true s (Begin j0 0%Z)) as [s1| | |] eqn:E1;
       try (cbn [step] in E1; rewrite (Hfree j0), Hfull, Ea in E1 by lia; discriminate).
     pose proof (Inv_step _ _ _ _ HI E1) as HI1. pose proof E1 as E1'.
     cbn [step] in E1. rewrite (Hfree j0), Hfull, Ea in E1 by lia. cbv zeta in E1. inversion E1; subst s1; clear E1.
